@@ -380,14 +380,23 @@ pub struct Cli {
 
 impl Cli {
     /// run `bita compress`; delivery "file" | "pipe"; sched "natural" | "late_tmp"
-    pub fn compress(&self, conf: &Conf, nbuf: usize, delivery: &str, sched: &str, tag: &str) -> (String, i32, Option<Vec<u8>>, Vec<String>) {
+    pub fn compress(&self, conf: &Conf, nbuf: usize, delivery: &str, sched: &str, tag: &str, existing: &str) -> (String, i32, Option<Vec<u8>>, Vec<String>) {
         let input = format!("{}/in_{}.bin", self.dir, tag);
         let output = format!("{}/out_{}.cba", self.dir, tag);
         let _ = std::fs::remove_file(&output);
+        // --force-create onto an existing file (longer or shorter than the archive to be written)
+        if existing == "longer" {
+            std::fs::write(&output, vec![0xABu8; conf.data.len() * 2 + 100_000]).unwrap();
+        } else if existing == "shorter" {
+            std::fs::write(&output, vec![0xABu8; 37]).unwrap();
+        }
         std::fs::write(&input, &conf.data).unwrap();
         let mut args: Vec<String> = vec!["compress".into()];
         if delivery == "file" {
             args.extend(["-i".into(), input.clone()]);
+        }
+        if existing == "longer" || existing == "shorter" {
+            args.push("--force-create".into());
         }
         args.push(output.clone());
         args.extend(conf.cli_args());
@@ -547,7 +556,8 @@ pub fn main(args: &[String]) {
                 Err(e) => (if e == "panic" { "panic".to_string() } else { format!("err: {}", e) }, None, vec![]),
             }
         } else {
-            let (r, _code, a, left) = cli.compress(&conf, conf.nbuf, &delivery, &sched, &tag);
+            let existing = sc.get("over_existing").and_then(|v| v.as_str()).unwrap_or("none");
+            let (r, _code, a, left) = cli.compress(&conf, conf.nbuf, &delivery, &sched, &tag, existing);
             (r, a, left)
         };
         nrun += 1;
@@ -620,7 +630,7 @@ pub fn main(args: &[String]) {
                         Err(e) => (e, None),
                     }
                 } else {
-                    let (r, _c, a, _l) = cli.compress(&conf, nb, dl, sd, &format!("{}r{}", n, ri));
+                    let (r, _c, a, _l) = cli.compress(&conf, nb, dl, sd, &format!("{}r{}", n, ri), r.get("over_existing").and_then(|v| v.as_str()).unwrap_or("none"));
                     if a.is_some() {
                         let _ = std::fs::remove_file(format!("{}/out_{}r{}.cba", cli.dir, n, ri));
                     }
